@@ -207,7 +207,7 @@ def check(prog, ctx):
         detail = '`%s` starts at %s' % (ents[kres[0]], v)
     else:
         # a non-constant start (e.g. an end of the bracket) lets the test fire immediately
-        cands = [k for k in ents if k not in (kx1, kx2, kf1, kf2) and init.get(k) is not None and not str(ents[k]).startswith('i@')]
+        cands = [k for k in ents if k not in (kx1, kx2, kf1, kf2) and init.get(k) is not None and k != sx.counter_key(loop)]
         if cands:
             detail = 'previous-iterate variable `%s` starts at %s' % (ents[cands[0]], init[cands[0]])
     ctx.decide('C02.e', 'sentinel', fn, okres, 'the previous-iterate variable starts at a constant sentinel: ' + detail,
